@@ -96,7 +96,7 @@ func VerifC03ClientForwarder() {
 	}
 	readCh := make(chan *msg.UDPPacket, 4)
 	sendCh := make(chan msg.Message, 16)
-	Forwarder(&net.UDPAddr{Port: 53}, readCh, sendCh, 1500)
+	Forwarder(&net.UDPAddr{Port: 53}, readCh, sendCh, 2) // packet size 2: a 2-byte reply fills the buffer exactly
 	for _, r := range reqs {
 		readCh <- NewUDPPacket(r.payload, nil, users[r.user])
 	}
